@@ -35,6 +35,8 @@ type Outcome struct {
 	Impl  string `json:"impl,omitempty"`
 	Model string `json:"model,omitempty"`
 	Viol  string `json:"violation,omitempty"`
+	// ModelAgrees: on an oracle violation, whether the model produced the same observation
+	ModelAgrees bool `json:"model_agrees,omitempty"`
 	// oracle violation met after the first disagreement, if any
 	LaterViol      string `json:"later_violation,omitempty"`
 	LaterViolIndex int    `json:"later_violation_index,omitempty"`
@@ -64,6 +66,7 @@ type Runner struct {
 }
 
 func (rn Runner) norm(line, obs string) string {
+	obs = strings.TrimSpace(obs)
 	if rn.Norm == nil {
 		return obs
 	}
@@ -100,7 +103,15 @@ func RunCase(c Case, d *Driver, rn Runner, st *CaseStats) Outcome {
 		}
 		if out.Kind == "" {
 			if viol != "" {
-				return Outcome{Kind: "oracle", Index: i, Line: line, Impl: impl, Viol: viol}
+				o := Outcome{Kind: "oracle", Index: i, Line: line, Impl: impl, Viol: viol}
+				// does the model (the recorded algorithm) behave the same on this input?
+				ml := line
+				if x, ok := ex.(interface{ ModelLine(string) string }); ok {
+					ml = x.ModelLine(line)
+				}
+				o.Model = d.Ask(ml)
+				o.ModelAgrees = rn.norm(line, o.Model) == rn.norm(line, impl)
+				return o
 			}
 			ml := line
 			if x, ok := ex.(interface{ ModelLine(string) string }); ok {
@@ -121,14 +132,19 @@ func RunCase(c Case, d *Driver, rn Runner, st *CaseStats) Outcome {
 
 // Shrink minimises the op list while the outcome kind stays the same (delta debugging).
 func Shrink(c Case, d *Driver, mk Runner, kind string, budget int) Case {
+	var orig Outcome
 	same := func(ops []string) bool {
 		if budget <= 0 {
 			return false
 		}
 		budget--
 		o := RunCase(Case{c.Cfg, ops}, d, mk, nil)
-		return o.Kind == kind
+		if strings.HasPrefix(o.Impl, "bad-") || strings.HasPrefix(o.Model, "bad-") {
+			return false // the shrunk history no longer makes sense (a slot vanished)
+		}
+		return o.Kind == kind && firstWord(o.Line) == firstWord(orig.Line)
 	}
+	orig = RunCase(c, d, mk, nil)
 	ops := c.Ops
 	// first cut everything after the failing index
 	if o := RunCase(c, d, mk, nil); o.Kind == kind && o.Index >= 0 && o.Index+1 < len(ops) && o.LaterViol == "" {
@@ -201,6 +217,7 @@ type Report struct {
 
 type FamCtx struct {
 	Gen    func() Case // generator of the family, used by the failing-input search
+	Sig    func(Outcome) string // signature of a finding, matched against known_findings.txt
 	Rand   *rand.Rand
 	Seed   int64
 	Tier   string
@@ -252,7 +269,7 @@ func (f *FamCtx) RunTreeCase(c Case, mk Runner, nontrivial func(CaseStats) bool)
 }
 
 func (f *FamCtx) AddFinding(c Case, o Outcome, mk Runner) {
-	if len(f.Report.Findings) >= 5 {
+	if len(f.Report.Findings) >= 8 {
 		return
 	}
 	sh := Shrink(c, f.Driver, mk, o.Kind, 400)
@@ -271,6 +288,9 @@ func (f *FamCtx) AddFinding(c Case, o Outcome, mk Runner) {
 		} else {
 			fi.Note = "oracle-only search over further generated histories found no input on which the implementation contradicts the property"
 		}
+	}
+	if f.Sig != nil {
+		fi.Signature = f.Sig(fi.Outcome)
 	}
 	f.Report.Findings = append(f.Report.Findings, fi)
 }
@@ -353,4 +373,12 @@ func (f *FamCtx) SearchOracle(rn Runner, n int) (Case, Outcome, bool) {
 		}
 	}
 	return Case{}, Outcome{}, false
+}
+
+func firstWord(s string) string {
+	f := strings.Fields(s)
+	if len(f) == 0 {
+		return ""
+	}
+	return f[0]
 }
